@@ -21,6 +21,8 @@ var c06Prelude = []string{
 	`func fold() int { h := 17; for k := 0; k < 2; k++ { for _, f := range gf { h = h*31 + f() }; for _, p := range gp { h = h*31 + *p; *p += 3 } }; return h }`,
 }
 
+var c06AddrKinds = []string{"int", "uint8", "float64", "bool", "complex128", "int16", "uint64", "float32", "uintptr"}
+
 type c06Fixed struct {
 	name  string
 	decls func(p [3]int) []string
@@ -28,7 +30,7 @@ type c06Fixed struct {
 }
 
 func c06FixedPrograms() []c06Fixed {
-	kinds := []string{"int", "uint8", "float64", "bool", "complex128", "int16", "uint64", "float32", "uintptr"}
+	kinds := c06AddrKinds
 	return []c06Fixed{
 		{"counter", func(p [3]int) []string {
 			return []string{
@@ -47,7 +49,7 @@ func c06FixedPrograms() []c06Fixed {
 			}
 			return []string{
 				`func b2i(b bool) int { if b { return 1 }; return 0 }`,
-				fmt.Sprintf(`func ad(n int) *%s { a := n + 100; y := %s; b := n + 200; _, _ = a, b; return &y }`, k, conv),
+				fmt.Sprintf(`func ad(n int) *%s { a := n + 100; y := %s; b := n + 200; _ = a; _ = b; return &y }`, k, conv),
 				fmt.Sprintf(`func ad2(n int) (*%s, *int) { a := n + 100; y := %s; { z := n * 3; if n%%2 == 0 { return &y, &z } }; return &y, &a }`, k, conv),
 				fmt.Sprintf(`func main1() int { var ps []*%s; var qs []*int; for i := 0; i < %d; i++ { ps = append(ps, ad(i)); p, q := ad2(i + 50); ps = append(ps, p); qs = append(qs, q); churn(%d) }; h := rec(%d); for _, p := range ps { h = h*7 + %s }; for _, q := range qs { h = h*7 + *q }; return h }`, k, p[1], 36/p[1]/6, 3+p[1], back),
 			}
@@ -94,7 +96,7 @@ func c06FixedPrograms() []c06Fixed {
 				`func (t T) get(a int) int { return t.v + a }`,
 				`func (t *T) mk(a int) func() int { b := a * 2; return func() int { b++; t.v++; return b + t.v } }`,
 				`func newT(n int) *T { x := n; t := &T{v: n}; t.f = func() int { x += 3; return x + t.v }; return t }`,
-				fmt.Sprintf(`func main1() int { h := 0; var ms []func(int) int; for i := 0; i < %d; i++ { t := newT(i); m := t.inc; g := t.get; ms = append(ms, m, g); gf = append(gf, t.f, t.mk(i)); h += T.get(*t, 1) + (*T).inc(t, 2); churn(%d) }; for _, m := range ms { h = h*3 + m(2) }; return h*31 + fold() }`, p[0], p[1]),
+				fmt.Sprintf(`func main1() int { h := 0; var ms []func(int) int; for i := 0; i < %d; i++ { t := newT(i); m := t.inc; tc := *t; g := tc.get; ms = append(ms, m, g); gf = append(gf, t.f, t.mk(i)); h += T.get(*t, 1) + (*T).inc(t, 2); churn(%d) }; for _, m := range ms { h = h*3 + m(2) }; return h*31 + fold() }`, p[0], p[1]),
 			}
 		}, [3][]int{{1, 4, 34}, {0, 3}, {0}}},
 		{"callback", func(p [3]int) []string {
@@ -109,8 +111,7 @@ func c06FixedPrograms() []c06Fixed {
 			return []string{
 				fmt.Sprintf(`func jm(n int) int { t := 0; outer: for i := 0; i < n; i++ { a := i * 2; for j := 0; j < 3; j++ { b := a + j; if b%%%d == 0 { gf = append(gf, func() int { b++; return a + b }); continue outer }; if b%%5 == 4 { gp = append(gp, &b); break }; if b == 11 { break outer }; { c := b * 2; if c%%7 == 3 { t += c; continue }; if c == 26 { return t + c } }; t += b } }; return t }`, 2+p[1]),
 				`func sw(n int) int { switch x := n * 2; { case x > 6: y := x + 1; gp = append(gp, &y); return y; case x > 2: z := x; gf = append(gf, func() int { z--; return z }); fallthrough; default: w := x + 3; return w }; return 0 }`,
-				`func gt(n int) int { i := 0; t := 0; loop: if i < n { k := i * 3; if k%2 == 0 { gp = append(gp, &k) }; t += k; i++; goto loop }; return t }`,
-				fmt.Sprintf(`func main1() int { h := jm(%d); for i := 0; i < 6; i++ { h = h*3 + sw(i) }; h += gt(%d); churn(%d); h += jm(4) + gt(3); return h*31 + fold() }`, p[0], p[0], p[2]),
+				fmt.Sprintf(`func main1() int { h := jm(%d); for i := 0; i < 6; i++ { h = h*3 + sw(i) }; churn(%d); h += jm(4); return h*31 + fold() }`, p[0], p[2]),
 			}
 		}, [3][]int{{3, 8, 20}, {0, 1, 2}, {0, 34}}},
 		{"interleave", func(p [3]int) []string {
@@ -130,31 +131,51 @@ func c06FixedPrograms() []c06Fixed {
 			return []string{
 				`type N int`,
 				`func (n *N) inc() int { *n++; return int(*n) }`,
-				fmt.Sprintf(`func pm(a int) func() int { var x N = N(a); x.inc(); return x.inc }`),
+				`func pm(a int) func() int { var x N = N(a); x.inc(); return x.inc }`,
 				fmt.Sprintf(`func main1() int { f := pm(%d); churn(%d); return f()*100 + f() }`, p[0], p[1]),
 			}
 		}, [3][]int{{5}, {0, 34}, {0}}},
+		{"mvalcopy", func(p [3]int) []string {
+			return []string{
+				`type T struct { v int }`,
+				`func (t T) get(a int) int { return t.v + a }`,
+				fmt.Sprintf(`func main1() int { t := &T{v: %d}; g := t.get; u := T{v: 7}; k := u.get; t.v = 100; u.v = 200; churn(%d); return g(0)*1000 + k(0) }`, p[0], p[1]),
+			}
+		}, [3][]int{{1}, {0, 34}, {0}}},
+		{"blankassign", func(p [3]int) []string {
+			return []string{
+				fmt.Sprintf(`func main1() int { a, b := %d, 2; var c int; _, _ = a, b; _, c = a, b; churn(%d); return a + c }`, p[0], p[1]),
+			}
+		}, [3][]int{{1}, {0}, {0}}},
 	}
 }
 
-func c06Gen(r *rand.Rand, tier string, prog func(name string, decls []string)) {
+func c06Gen(r *rand.Rand, tier string, prog func(name string, decls []string, maxOps int) bool) {
 	for _, f := range c06FixedPrograms() {
 		for _, a := range f.grid[0] {
 			for _, b := range f.grid[1] {
 				for _, c := range f.grid[2] {
 					decls := append(append([]string{}, c06Prelude...), f.decls([3]int{a, b, c})...)
-					prog(f.name, decls)
+					name := f.name
+					if name == "addr" {
+						name = "addr-" + c06AddrKinds[a]
+					}
+					prog(name, decls, 0)
 				}
 			}
 		}
 	}
-	n := 60
+	// random programs; a program whose real run produces more than maxOps monitor operations
+	// is dropped (deterministically: generation and execution are deterministic)
+	n, maxOps := 40, 500
 	if tier == "thorough" {
-		n = 3000
+		n, maxOps = 1500, 900
 	}
-	for i := 0; i < n; i++ {
+	for i, tries := 0, 0; i < n && tries < 6*n; tries++ {
 		g := &c06RandGen{r: r}
-		prog("rand", g.program())
+		if prog("rand", g.program(), maxOps) {
+			i++
+		}
 	}
 }
 
@@ -219,9 +240,8 @@ func (g *c06RandGen) expr(sc *c06Scope, depth int) string {
 	case 3:
 		return "(" + x + ")%7"
 	case 4:
-		if len(sc.closs) > 0 {
-			return sc.closs[g.pick(len(sc.closs))] + "(" + x + ")"
-		}
+		// no calls inside expressions: Go leaves the order of a variable read and a call
+		// that may change the variable unspecified
 		return "(" + x + " + 1)"
 	default:
 		return "(" + x + " ^ " + y + ")"
@@ -370,14 +390,18 @@ func (g *c06RandGen) stmt(sc *c06Scope) string {
 	case 7: // call of a top level function
 		if len(g.funcs) > 0 {
 			f := g.funcs[g.pick(len(g.funcs))]
-			return fmt.Sprintf("if d > 0 && fuel > 0 { fuel--; a += %s(d-1, %s) }", f, g.expr(sc, 1))
+			return fmt.Sprintf("if d > 0 && fuel > 0 { fuel--; t := %s(d-1, %s); a += t }", f, g.expr(sc, 1))
 		}
 		return "a += 4"
 	case 8: // callback
 		if len(sc.closs) > 0 {
-			return fmt.Sprintf("a += apply(%d, %s)", 1+g.pick(3), sc.closs[g.pick(len(sc.closs))])
+			c := sc.closs[g.pick(len(sc.closs))]
+			if g.pick(2) == 0 {
+				return fmt.Sprintf("{ t := %s(%s); a += t }", c, g.expr(sc, 1))
+			}
+			return fmt.Sprintf("{ t := apply(%d, %s); a += t }", 1+g.pick(3), c)
 		}
-		return "a += spoil(a, 1, 2)"
+		return "{ t := spoil(a, 1, 2); a += t }"
 	case 9, 10: // for loop with its own block frame
 		inner := *sc
 		inner.inLoop = true
@@ -472,16 +496,16 @@ func (g *c06RandGen) function(idx int) string {
 		tail = "r += a; return r }"
 	case 1: // variadic helper behind the uniform signature
 		sc.ret = "return a"
-		head = fmt.Sprintf("func %s(d int, a int) int { return %sv(d, a, a+1, a+2) }; func %sv(d int, xs ...int) int { a := len(xs); for _, x := range xs { a += x }; ", name, name, name)
-		tail = "return a }"
+		head = fmt.Sprintf("func %sv(d int, xs ...int) int { a := len(xs); for _, x := range xs { a += x }; ", name)
+		tail = fmt.Sprintf("return a }; func %s(d int, a int) int { return %sv(d, a, a+1, a+2) }", name, name)
 	case 2: // multiple results
 		sc.ret = "return a, nil"
-		head = fmt.Sprintf("func %s(d int, a int) int { x, f := %sm(d, a); if f != nil { x += f(1) }; return x }; func %sm(d int, a int) (int, func(int) int) { ", name, name, name)
-		tail = "return a, func(p int) int { a += p; return a } }"
+		head = fmt.Sprintf("func %sm(d int, a int) (int, func(int) int) { ", name)
+		tail = fmt.Sprintf("return a, func(p int) int { a += p; return a } }; func %s(d int, a int) int { x, f := %sm(d, a); if f != nil { x += f(1) }; return x }", name, name)
 	case 3: // method
 		sc.ret = "return a"
-		head = fmt.Sprintf("func %s(d int, a int) int { t := T{v: a}; return t.%s(d, a+1) }; func (t *T) %s(d int, a int) int { a += t.v; ", name, name, name)
-		tail = "t.v = a; return a + t.v }"
+		head = fmt.Sprintf("func (t *T) %s(d int, a int) int { a += t.v; ", name)
+		tail = fmt.Sprintf("t.v = a; return a + t.v }; func %s(d int, a int) int { t := T{v: a}; return t.%s(d, a+1) }", name, name)
 	default:
 		sc.ret = "return a"
 		head = fmt.Sprintf("func %s(d int, a int) int { ", name)
@@ -497,7 +521,7 @@ func (g *c06RandGen) program() []string {
 		`func (t *T) inc(a int) int { t.v += a; return t.v }`,
 		`func (t *T) mk(a int) func() int { b := a * 2; return func() int { b++; t.v++; return b + t.v } }`,
 		`var gf []func() int`,
-		`var fuel = 150`,
+		`var fuel = 40`,
 		`var gm []func(int) int`,
 		`var gp []*int`,
 		`var gp8 []*uint8`,
@@ -506,7 +530,8 @@ func (g *c06RandGen) program() []string {
 		`func spoil(a, b, c int) int { x, y, z := a+1, b+2, c+3; s := "s"; return x + y + z + len(s) }`,
 		`func apply(n int, f func(int) int) int { a := 1; for i := 0; i < n; i++ { b := f(a + i); a = b%1000 + 1 }; return a }`,
 		`func rec(n int) int { v := n * 5; if n == 0 { return v }; return rec(n-1) + v }`,
-		`func fold() int { h := 17; for k := 0; k < 2; k++ { for _, f := range gf { h = h*31 + f() }; for _, m := range gm { h = h*31 + m(k) }; for _, p := range gp { h = h*31 + *p; *p += 3 }; for _, p := range gp8 { h = h*31 + int(*p); *p += 3 }; for _, p := range gpf { h = h*31 + int(*p); *p = 7 }; for _, p := range gps { h = h*31 + len(*p); *p += "q" } }; return h }`,
+		`func safe(f func() int) (r int) { defer func() { if e := recover(); e != nil { r = e.(int) % 1000 } }(); return f() }`,
+		`func fold() int { h := 17; for k := 0; k < 2; k++ { for _, f := range gf { h = h*31 + safe(f) }; for _, m := range gm { h = h*31 + m(k) }; for _, p := range gp { h = h*31 + *p; *p += 3 }; for _, p := range gp8 { h = h*31 + int(*p); *p += 3 }; for _, p := range gpf { h = h*31 + int(*p); *p = 7 }; for _, p := range gps { h = h*31 + len(*p); *p += "q" } }; return h }`,
 	}
 	nf := 2 + g.pick(4)
 	for i := 0; i < nf; i++ {
